@@ -488,6 +488,7 @@ class Ops:
 
     def dict_set(self, d: SDict, k: V, v: V):
         rec = self.st.dicts[d.did]
+        rec.meta.setdefault("mut", []).append(("set", k, v))
         if rec.kind == "conc":
             for i, (kk, _vv) in enumerate(rec.items):
                 dec = self.decide(self.eq(kk, k))
@@ -508,6 +509,7 @@ class Ops:
 
     def dict_del(self, d: SDict, k: V):
         rec = self.st.dicts[d.did]
+        rec.meta.setdefault("mut", []).append(("del", k))
         if rec.kind == "conc":
             for i, (kk, _vv) in enumerate(rec.items):
                 c = z3.simplify(self.eq(kk, k))
